@@ -42,7 +42,7 @@ Definition fixed (m : N) (e : Z) (point_zero : bool) : string :=
   else
     let k := Z.to_nat (- e) in
     let ds := digits m in
-    let ds' := zeros (S k - String.length ds)%nat ++ ds in
+    let ds' := (zeros (S k - String.length ds)%nat ++ ds)%string in
     let ip := (String.length ds' - k)%nat in
     str_take ip ds' ++ "." ++ str_drop ip ds'.
 Definition zdigits (z : Z) (plus : bool) : string :=
@@ -289,11 +289,11 @@ Fixpoint join (sep : string) (l : list string) : string :=
   end.
 Definition render_line (d : deco) (l : lline) : list string :=
   let sep := if d_tab d then tab else " " in
-  let trail := if d_trail d =? "" then "" else sep ++ d_trail d in
+  let trail := (if d_trail d =? "" then "" else sep ++ d_trail d)%string in
   d_before d ++
   [ match l with
-    | LWord _ w => d_indent d ++ w ++ trail
-    | LEntry fs => join sep (map snd fs) ++ trail
+    | LWord _ w => (d_indent d ++ w ++ trail)%string
+    | LEntry fs => (join sep (map snd fs) ++ trail)%string
     end ].
 Fixpoint render_lines (ds : list deco) (ls : list lline) : list string :=
   match ls with
